@@ -154,7 +154,7 @@ def _r2(ctx):
               "operand selection by `reverse` changed", f.qname, "operand order")
     outer = [n for n in ast.walk(f.node) if isinstance(n, ast.If) and "in mov_instr" in U(n.test)]
     parts = {U(v) for v in outer[0].test.values} if outer and isinstance(outer[0].test, ast.BoolOp) else set()
-    ctx.check(parts == {"line.mnemonic in mov_instr", "len(lines) > i + 1", "lines[i + 1].directive is not None"}, "R2",
+    ctx.check(parts == {"line.mnemonic in mov_instr", C.CT("len(lines) > i + 1"), "lines[i + 1].directive is not None"}, "R2",
               "candidate = marker mov followed by a directive", f.where(), "candidate test is %s" % sorted(parts), f.qname,
               "candidate test")
     com = [n for n in ast.walk(f.node) if isinstance(n, ast.If) and U(n.test) == "comments['start'] == line.comment"]
@@ -265,7 +265,7 @@ def _r5(ctx):
     body = [U(s) for s in br[0].body] if br else []
     want = ["throughput = 0.0", "latency = 0.0", "instruction_form.port_uops = []"]
     ok = bool(br) and all(w in body for w in want) and any(
-        b.startswith("instruction_form.port_pressure = [0.0 for") for b in body) and any(
+        C.is_zero_vector_assign(s, "instruction_form.port_pressure") for s in br[0].body) and any(
         b in ("latency_wo_load = latency", "latency_wo_load = 0.0") for b in body)
     ctx.check(ok, "R5", "assign_tp_lt: no mnemonic -> zero throughput/latency/pressure, no micro-ops", t.where(),
               "assign_tp_lt's branch for lines without mnemonic is %s" % body, t.qname, "tp_lt neutral")
